@@ -113,10 +113,23 @@ type opDesc struct {
 	Data blob   `json:"data,omitempty"`
 }
 
+// startOp is activity DURING start-up: injected once the Open of initial file number AtFile (reading order, 0 =
+// oldest) has been announced and After of its lines have been received (AtFile -1: at once, before any file has
+// been opened); positions never reached fall at the end of start-up.  append: bytes appended to audit.log + Write event; chmod: Chmod event for audit.log (also: a Write
+// event without any new byte = append without data); other-name: a Write event for another name of the directory.
+type startOp struct {
+	AtFile int    `json:"at_file"`
+	After  int    `json:"after_lines"`
+	Op     string `json:"op"`
+	Name   string `json:"name,omitempty"`
+	Data   blob   `json:"data,omitempty"`
+}
+
 type caseDesc struct {
-	Dir   []entry  `json:"dir"`
-	Ops   []opDesc `json:"ops"`
-	Chunk int      `json:"read_chunk"` // a Read of the in-memory file returns at most this many bytes
+	Dir     []entry   `json:"dir"`
+	Startup []startOp `json:"startup,omitempty"`
+	Ops     []opDesc  `json:"ops"`
+	Chunk   int       `json:"read_chunk"` // a Read of the in-memory file returns at most this many bytes
 }
 
 // ---------- generator ----------
@@ -239,6 +252,19 @@ var fixedCases = []caseDesc{
 			{Op: "rotate"}, {Op: "append", Data: mkBlob([]byte("g\nh"))}, {Op: "truncate"}, {Op: "append", Data: mkBlob([]byte("i\n"))}},
 		Chunk: 1,
 	},
+	{ // a line is appended (Write event) while the start-up read of audit.log is handing out its lines
+		Dir:     []entry{{Name: "audit.log", Data: mkBlob([]byte("a\nb\nc\n"))}},
+		Startup: []startOp{{AtFile: 0, After: 1, Op: "append", Data: mkBlob([]byte("d\n"))}},
+		Ops:     []opDesc{{Op: "append", Data: mkBlob([]byte("e\n"))}},
+		Chunk:   4096,
+	},
+	{ // the same while an older file is being read, right when the read of audit.log starts, and split over two appends
+		Dir: []entry{{Name: "audit.log.1", Data: mkBlob([]byte("r1\nr2\n"))}, {Name: "audit.log", Data: mkBlob([]byte("a\nb"))}},
+		Startup: []startOp{{AtFile: 0, After: 1, Op: "append", Data: mkBlob([]byte("c\nd"))}, {AtFile: 1, After: 0, Op: "append", Data: mkBlob([]byte("e\n"))},
+			{AtFile: 1, After: 2, Op: "chmod"}, {AtFile: 1, After: 9, Op: "append", Data: mkBlob([]byte("f\ng"))}},
+		Ops:   []opDesc{{Op: "append", Data: mkBlob([]byte("h\n"))}, {Op: "rotate"}, {Op: "append", Data: mkBlob([]byte("i\n"))}},
+		Chunk: 7,
+	},
 }
 
 func genCase(r *hutil.Rand, idx int, sum *hutil.Summary) caseDesc {
@@ -272,6 +298,73 @@ func genCase(r *hutil.Rand, idx int, sum *hutil.Summary) caseDesc {
 		}
 	}
 	shuffle(r, c.Dir)
+
+	// activity during start-up (two cases in five): appends to audit.log with their Write events, Write events
+	// without new bytes, Chmod events, events for other names - while an older file is read, between files, right
+	// when the read of audit.log starts, after some of its lines, after all of them
+	nFiles := len(nums) + btoi(livePresent)
+	if nFiles > 0 && r.Chance(2, 5) {
+		liveLines := 0
+		if livePresent {
+			ls, _ := completeLines(c.Dir[indexOfName(c.Dir, "audit.log")].Data.bytes())
+			liveLines = len(ls)
+		}
+		for i, k := 0, 1+r.Intn(4); i < k; i++ {
+			var so startOp
+			if r.Chance(3, 5) {
+				so.AtFile = nFiles - 1 // the last file read: audit.log when it exists
+				so.After = r.Intn(liveLines + 2)
+			} else {
+				so.AtFile = r.Intn(nFiles+1) - 1 // -1: before the first file is opened
+				so.After = r.Intn(4)
+			}
+			w := r.Intn(10)
+			switch {
+			case !livePresent || w >= 8:
+				if r.Bool() {
+					so.Op = "chmod"
+				} else {
+					so.Op = "other-name"
+					so.Name = hutil.Pick(r, []string{"audit.log.1", "audit.log.2", "syslog", "audit.lo", "audit.log.swp"})
+				}
+			case w < 4: // whole lines
+				so.Op = "append"
+				var b []byte
+				for j, m := 0, 1+r.Intn(3); j < m; j++ {
+					b = append(b, g.line("S")...)
+					b = append(b, '\n')
+				}
+				so.Data = mkBlob(b)
+			case w < 6: // ends mid-line
+				so.Op = "append"
+				b := g.line("SP")
+				if r.Bool() {
+					b = append(append(g.line("S"), '\n'), b...)
+				}
+				so.Data = mkBlob(b)
+			case w < 7: // newline only
+				so.Op = "append"
+				so.Data = mkBlob([]byte("\n"))
+			default: // Write event, nothing new
+				so.Op = "append"
+			}
+			c.Startup = append(c.Startup, so)
+		}
+		// in position order (stable: the generated order decides among equals)
+		for i := 1; i < len(c.Startup); i++ {
+			for j := i; j > 0 && (c.Startup[j].AtFile < c.Startup[j-1].AtFile ||
+				(c.Startup[j].AtFile == c.Startup[j-1].AtFile && c.Startup[j].After < c.Startup[j-1].After)); j-- {
+				c.Startup[j], c.Startup[j-1] = c.Startup[j-1], c.Startup[j]
+			}
+		}
+		sum.Dist("startup_activity")
+		for _, so := range c.Startup {
+			sum.Dist("startup_op_" + so.Op)
+			if so.AtFile == nFiles-1 {
+				sum.Dist("startup_op_during_last_initial_file")
+			}
+		}
+	}
 
 	// operations
 	nOps := r.Intn(13)
@@ -352,6 +445,15 @@ func genCase(r *hutil.Rand, idx int, sum *hutil.Summary) caseDesc {
 		}
 	}
 	return c
+}
+
+func indexOfName(dir []entry, name string) int {
+	for i, e := range dir {
+		if e.Name == name && !e.Dir {
+			return i
+		}
+	}
+	return -1
 }
 
 // appendSplit appends b in one piece or cut at random places into two or three appends.
